@@ -60,6 +60,35 @@ func errKind(err error) string {
 	return "other"
 }
 
+// wgAlignEdges: the property orders operands, not the edges of ONE operand: the direct edges of a direct
+// assignment and the TTU edges of one tuple-to-userset are compared as a set. Inside each maximal run of
+// reference edges of one operand the library's edges are aligned by target; everything else keeps its
+// position. Returns a copy.
+func wgAlignEdges(r *ref.Node, in []*graph.WeightedAuthorizationModelEdge) []*graph.WeightedAuthorizationModelEdge {
+	es := append([]*graph.WeightedAuthorizationModelEdge(nil), in...)
+	if len(es) != len(r.Edges) {
+		return es
+	}
+	for a := 0; a < len(r.Edges); {
+		b := a + 1
+		if k := r.Edges[a].Kind; k == "direct" || k == "ttu" {
+			for b < len(r.Edges) && r.Edges[b].Kind == k && r.Edges[b].TS == r.Edges[a].TS {
+				b++
+			}
+		}
+		for i := a; i < b; i++ {
+			for j := i; j < b; j++ {
+				if es[j].GetTo().GetUniqueLabel() == r.Edges[i].To.ID {
+					es[i], es[j] = es[j], es[i]
+					break
+				}
+			}
+		}
+		a = b
+	}
+	return es
+}
+
 // wgMatch pairs reference nodes with library nodes by walking from the labelled nodes along the
 // ordered edge lists. It returns the structural differences (C10 oracle).
 func wgMatch(g *ref.Graph, wg *graph.WeightedAuthorizationModelGraph) (map[*ref.Node]*graph.WeightedAuthorizationModelNode, []string) {
@@ -75,7 +104,16 @@ func wgMatch(g *ref.Graph, wg *graph.WeightedAuthorizationModelGraph) (map[*ref.
 		case graph.SpecificTypeAndRelation:
 			return "rel"
 		case graph.OperatorNode:
-			return n.GetLabel()
+			// through the library's own constants: a consistent renaming of an operator label is not a violation
+			switch n.GetLabel() {
+			case graph.UnionOperator:
+				return "union"
+			case graph.IntersectionOperator:
+				return "intersection"
+			case graph.ExclusionOperator:
+				return "exclusion"
+			}
+			return "operator?" + n.GetLabel()
 		}
 		return "?"
 	}
@@ -105,14 +143,12 @@ func wgMatch(g *ref.Graph, wg *graph.WeightedAuthorizationModelGraph) (map[*ref.
 		if !r.IsOp() && (n.GetLabel() != r.ID || n.GetUniqueLabel() != r.ID) {
 			diffs = append(diffs, fmt.Sprintf("node %s: labels impl=%q/%q", r.ID, n.GetLabel(), n.GetUniqueLabel()))
 		}
-		if r.IsOp() && !strings.HasPrefix(n.GetUniqueLabel(), r.Kind+":") {
-			diffs = append(diffs, fmt.Sprintf("operator node %s: unique label %q lacks prefix %q", r.ID, n.GetUniqueLabel(), r.Kind+":"))
-		}
 		es := wg.GetEdges()[n.GetUniqueLabel()]
 		if len(es) != len(r.Edges) {
 			diffs = append(diffs, fmt.Sprintf("node %s: %d outgoing edges, reference has %d", r.ID, len(es), len(r.Edges)))
 			return
 		}
+		es = wgAlignEdges(r, es)
 		for i, e := range r.Edges {
 			ie := es[i]
 			if ie.GetFrom() != n {
@@ -183,7 +219,7 @@ func wgCompareWeights(g *ref.Graph, wg *graph.WeightedAuthorizationModelGraph, m
 		if !r.Terminal() && ref.FmtW(r.W) != ref.FmtW(n.GetWeights()) {
 			diffs = append(diffs, fmt.Sprintf("node %s: weights ref=%s impl=%s", r.ID, ref.FmtW(r.W), ref.FmtW(n.GetWeights())))
 		}
-		es := wg.GetEdges()[n.GetUniqueLabel()]
+		es := wgAlignEdges(r, wg.GetEdges()[n.GetUniqueLabel()])
 		if len(es) != len(r.Edges) {
 			continue
 		}
@@ -286,7 +322,7 @@ func wgCompareWildcards(g *ref.Graph, wg *graph.WeightedAuthorizationModelGraph,
 		if ref.FmtSet(want) != ref.FmtList(n.GetWildcards()) || dup(n.GetWildcards()) {
 			diffs = append(diffs, fmt.Sprintf("node %s: wildcards ref={%s} impl=%v", r.ID, ref.FmtSet(want), n.GetWildcards()))
 		}
-		es := wg.GetEdges()[n.GetUniqueLabel()]
+		es := wgAlignEdges(r, wg.GetEdges()[n.GetUniqueLabel()])
 		if len(es) != len(r.Edges) {
 			continue
 		}
